@@ -10,7 +10,7 @@
 EXTENDS OpticsMC, Json
 CONSTANTS Seed, Modulus
 
-Selected == sh # <<>> /\ (Modulus = 1 \/ (Checksum(sh) + Seed) % Modulus = 0 \/ (WithBoundary /\ sh \in BoundarySet))
+Selected == sh # <<>> /\ (Modulus = 1 \/ (Checksum(sh) + Seed) % Modulus = 0 \/ (WithBoundary /\ sh \in BoundarySetHseq))
 
 WantJ(l, foc, rq, w) ==
   IF w.out = "panic" THEN [out |-> "panic", why |-> w.why]
@@ -37,7 +37,7 @@ Emit ==
       valid == {r \in 1..Len(rs) : ws[r].out = "lens" /\ Arity(rs[r]) = 1}
       core == LET s == SetToSeq(valid) IN SubSeq(SortSeq(s, LAMBDA a, b : a < b), 1, IF Len(s) < 4 THEN Len(s) ELSE 4)
   IN PrintT(ToJson(
-       [t |-> "shape", ck |-> ck, boundary |-> (WithBoundary /\ sh \in BoundarySet),
+       [t |-> "shape", ck |-> ck, boundary |-> (WithBoundary /\ sh \in BoundarySetHseq),
         fields |-> sh, size |-> SSize(sh), align |-> SAlign(sh),
         cells |-> cs, holes |-> SetToSeq(HoleBytes(sh)),
         listing |-> [j \in 1..Len(l) |-> [key |-> l[j].key, ty |-> l[j].ty, byval |-> l[j].byval, abs |-> l[j].abs,
